@@ -41,9 +41,7 @@ def _mk(b):
         l = pl["local"]
         if l <= b.argc:
             return None
-        nm = b.local_name(l)
-        if not nm:
-            return None
+        nm = b.local_name(l) or b.locals[l].get("inlined_name") or ("v%d" % l)
         if l not in named:
             ds = [d for d in b.defs().get(l, []) if not b.is_cleanup(d[0])]
             named[l] = len(ds) == 1 and ds[0][1] == "term" and "from_elem" in (cm.callee_name(ds[0][2]["callee"]) or "")
